@@ -442,3 +442,168 @@ def touches(label, a, b):
     if s == e:
         return a <= s <= b
     return s < b and e > a
+
+
+# ---------------------------------------------------------------------------------------------
+# well-formed references that repeat modifiers of their definition
+#
+# resolve_reference (event_consumer.rs:1176-1207): "except ref and new, the only modifiers a
+# reference can have is those inherited from the definition": conflict = written & !inherited & !REF
+# with inherited = definition's modifiers & inherit_modifiers(), which is RECIPE|HIDDEN|OPT for
+# ingredients (1263-1265) and HIDDEN|OPT for cookware (1311-1313).  So a reference may repeat any
+# subset of those modifiers of its definition - explicitly (`&`) or, in `[duplicate]: ref` mode
+# (extensions.md, Modes), implicitly - and the recipe stays well-formed.
+INHERIT = {"@": "@-?", "#": "-?"}
+
+
+def _wf_ref_pair(rng, implicit):
+    r = rng
+    marker = "@" if r.random() < 0.7 else "#"
+    pool = INHERIT[marker]
+    dmods = "".join(r.sample(pool, r.randint(1, len(pool))))
+    rsub = [c for c in dmods if r.random() < 0.75]
+    if not rsub:
+        rsub = [r.choice(dmods)]
+    if "@" in dmods and r.random() < 0.6 and "@" not in rsub:
+        rsub.append("@")
+    rmods = list(rsub) + ([] if implicit else ["&"])
+    r.shuffle(rmods)
+    name = r.choice(["zzdough", "zz pizza dough", "zzbase 2", "zzCrème"])
+    multi = not name.isalpha()
+    if marker == "@":
+        dq = r.choice(["", "1", "2%g", "1/2%cup"])
+        rq = "" if (not dq or r.random() < 0.5) else r.choice(["3", "1.5"]) + (dq[dq.index("%"):] if "%" in dq else "")
+    else:
+        dq = r.choice(["", "", "2"])
+        rq = ""
+    a = marker + dmods + name + ("{" + dq + "}" if (dq or multi or r.random() < 0.5) else "")
+    rname = name if r.random() < 0.7 else name.swapcase()
+    b = marker + "".join(rmods) + rname + ("{" + rq + "}" if (rq or multi or r.random() < 0.5) else "")
+    return a, b
+
+
+def wf_reference(rng, ext):
+    """an explicit reference repeating modifiers of its definition, spliced into a well-formed recipe"""
+    a, b = _wf_ref_pair(rng, implicit=False)
+    en = Entry("wf_ref", "well-formed reference", b, None, "Analysis", X_MOD, EC_RS + ":1183", a=a)
+    sp = splice(rng, en, ext)
+    if sp is not None:
+        sp["pair"] = [a, b]
+    return sp
+
+
+def wf_implicit_reference(rng, ext):
+    """a step in `[duplicate]: ref` mode whose second mention of a component repeats modifiers of the
+    first, inserted as a block of its own between two mode lines"""
+    a, b = _wf_ref_pair(rng, implicit=True)
+    text, exp, info, g = gen_base(rng, ext)
+    base = strip_marks(text)
+    starts = [s for s in safe_line_starts(base) if s[1] != "splits-a-step"]
+    pos, tag = rng.choice(starts)
+    step = rng.choice(["", "Mix "]) + a + rng.choice([" then ", " ", ", and "]) + b + rng.choice(["", "."])
+    if rng.random() < 0.3:
+        step += " again " + b
+    group = ">> [duplicate]: %s\n%s\n>> [duplicate]: %s\n" % (rng.choice(["ref", "reference"]), step,
+                                                             rng.choice(["new", "default"]))
+    if tag == "end" and not base.endswith("\n"):
+        group = "\n" + group
+    full = base[:pos] + group + base[pos:]
+    return {"text": full, "base": base, "tags": ["implicit-ref-block", tag], "old_style": info["old_style_meta"],
+            "pair": [a, b]}
+
+
+# ---------------------------------------------------------------------------------------------
+# two invalid constructs in one recipe: an analysis-stage one and a parse-stage one
+DOUBLE_ANALYSIS = ["dangling_ref_igr", "dangling_ref_cw", "dangling_ref_qty", "note_on_ref", "note_on_ref_cw",
+                   "inter_oob_step", "inter_zero", "inter_oob_section_rel", "forbidden_new_ref", "conflict_ref_mods",
+                   "bad_mode", "bad_duplicate", "fm_flow_open", "fm_sequence", "fm_mb_then_error", "timer_unit_mass"]
+DOUBLE_PARSE = ["empty_name_igr", "empty_name_cw", "cookware_unit", "div_zero_igr", "div_zero_timer", "timer_no_unit",
+                "alias_empty", "dup_mod_opt", "empty_value_unit", "inter_empty"]
+
+
+def double_configs(ea, ep):
+    need = ea.need | ep.need
+    need_b = ea.conv == "b" or ep.conv == "b" or bool(need & X_ADV)
+    out = []
+    for e in (need, X_COMPAT, X_ALL):
+        if e & need != need:
+            continue
+        c = "b" if (need_b or e in (X_COMPAT, X_ALL)) else "e"
+        if (e, c) not in out:
+            out.append((e, c))
+    return out
+
+
+def _inline(entry):
+    """(text, offset of the construct inside it) for a step-level entry with its set-up just before"""
+    pre = (entry.a + " then ") if entry.a else ""
+    return pre + entry.b, len(pre)
+
+
+def double_splice(rng, ea, ep, ext, analysis_first):
+    """both constructs in one otherwise well-formed recipe; `analysis_first`: the analysis-stage
+    construct comes earlier in the text than the parse-stage one (the converse is the control).
+    Returns dict(text, pa, pb: bytes of the parse construct, aa, ab: of the analysis construct)."""
+    r = rng
+    if ea.level == "front" and not analysis_first:
+        return None
+    feats = {"metadata": False} if ea.level == "front" else None
+    text, exp, info, g = gen_base(r, ext, feats)
+    n = g.nmarks
+    if n == 0:
+        return None
+    step_entries = [x for x in (ea, ep) if x.level == "step"]
+    # markers for the step-level constructs, in text order
+    if len(step_entries) == 2:
+        if n >= 2 and r.random() < 0.7:
+            i, j = sorted(r.sample(range(n), 2))
+            same = False
+        else:
+            i = j = r.randrange(n)
+            same = True
+        first, second = (ea, ep) if analysis_first else (ep, ea)
+        plan = {i: [first]} if not same else {i: [first, second]}
+        if not same:
+            plan[j] = [second]
+    else:
+        plan = {r.randrange(n): [ep]}
+    sofar = ""
+    pos = 0
+    where = {}
+    for m in MARK_RE.finditer(text):
+        sofar += text[pos:m.start()]
+        k = int(m.group(1))
+        for idx, en in enumerate(plan.get(k, [])):
+            if idx:
+                sofar += r.choice([" ", " and ", ", "])
+            t, off = _inline(en)
+            where[en.id] = (len(sofar) + off, len(sofar) + off + len(en.b))
+            sofar += t
+        pos = m.end()
+    sofar += text[pos:]
+    full = sofar
+    tags = ["double", "analysis-first" if analysis_first else "parse-first",
+            "same-step" if any(len(v) == 2 for v in plan.values()) else "separate"]
+    if ea.level == "line":
+        if analysis_first:
+            b0 = body_start(full)
+            ins = ea.b + "\n"
+            full = full[:b0] + ins + full[b0:]
+            where = {k: (a + len(ins) if a >= b0 else a, b + len(ins) if a >= b0 else b) for k, (a, b) in where.items()}
+            where[ea.id] = (b0, b0 + len(ea.b))
+            tags.append("mode-line-top")
+        else:
+            lead = "" if full.endswith("\n") else "\n"
+            where[ea.id] = (len(full) + len(lead), len(full) + len(lead) + len(ea.b))
+            full = full + lead + ea.b + r.choice(["", "\n"])
+            tags.append("mode-line-end")
+    elif ea.level == "front":
+        fm = r.choice(["", "\n"]) + "---\n" + ea.b + "---\n"
+        where = {k: (a + len(fm), b + len(fm)) for k, (a, b) in where.items()}
+        where[ea.id] = (0, len(fm))
+        full = fm + full
+        tags.append("front-matter")
+    ca, cb = where[ep.id]
+    xa, xb = where[ea.id]
+    return {"text": full, "a": blen(full[:ca]), "b": blen(full[:cb]), "aa": blen(full[:xa]), "ab": blen(full[:xb]),
+            "tags": tags, "old_style": info["old_style_meta"]}
